@@ -34,6 +34,10 @@
 
 #include "xml.h"
 
+#ifdef DANMAR_CPPCHECK_VERIF
+#include "verifhooks.h"
+#endif
+
 AnalyzerInformation::~AnalyzerInformation()
 {
     close();
@@ -55,7 +59,13 @@ void AnalyzerInformation::writeFilesTxt(const std::string &buildDir, const std::
 {
     const std::string filesTxt(buildDir + "/files.txt");
     std::ofstream fout(filesTxt);
+#ifdef DANMAR_CPPCHECK_VERIF
+    verifhooks::crashPointS("filestxt-opened", &fout);
+#endif
     fout << getFilesTxt(sourcefiles, fileSettings);
+#ifdef DANMAR_CPPCHECK_VERIF
+    verifhooks::crashPointS("filestxt-written", &fout);
+#endif
 }
 
 std::string AnalyzerInformation::getFilesTxt(const std::list<std::string> &sourcefiles, const std::list<FileSettings> &fileSettings) {
@@ -80,8 +90,17 @@ std::string AnalyzerInformation::getFilesTxt(const std::list<std::string> &sourc
 void AnalyzerInformation::close()
 {
     if (mOutputStream.is_open()) {
+#ifdef DANMAR_CPPCHECK_VERIF
+        verifhooks::crashPointS("cache-close-pre", &mOutputStream);
+#endif
         mOutputStream << "</analyzerinfo>\n";
+#ifdef DANMAR_CPPCHECK_VERIF
+        verifhooks::crashPointS("cache-close-mid", &mOutputStream);
+#endif
         mOutputStream.close();
+#ifdef DANMAR_CPPCHECK_VERIF
+        verifhooks::crashPoint("cache-closed");
+#endif
     }
 }
 
@@ -193,8 +212,14 @@ bool AnalyzerInformation::analyzeFile(const std::string &buildDir, const std::st
     mOutputStream.open(analyzerInfoFile);
     if (!mOutputStream.is_open())
         throw std::runtime_error("failed to open '" + analyzerInfoFile + "'");
+#ifdef DANMAR_CPPCHECK_VERIF
+    verifhooks::crashPointS("cache-opened", &mOutputStream);
+#endif
     mOutputStream << "<?xml version=\"1.0\"?>\n";
     mOutputStream << "<analyzerinfo hash=\"" << hash << "\">\n";
+#ifdef DANMAR_CPPCHECK_VERIF
+    verifhooks::crashPointS("cache-header", &mOutputStream);
+#endif
 
     return true;
 }
@@ -203,12 +228,20 @@ void AnalyzerInformation::reportErr(const ErrorMessage &msg)
 {
     if (mOutputStream.is_open())
         mOutputStream << msg.toXML() << '\n';
+#ifdef DANMAR_CPPCHECK_VERIF
+    if (mOutputStream.is_open())
+        verifhooks::crashPointS("cache-error", &mOutputStream);
+#endif
 }
 
 void AnalyzerInformation::setFileInfo(const std::string &check, const std::string &fileInfo)
 {
     if (mOutputStream.is_open() && !fileInfo.empty())
         mOutputStream << "  <FileInfo check=\"" << check << "\">\n" << fileInfo << "  </FileInfo>\n";
+#ifdef DANMAR_CPPCHECK_VERIF
+    if (mOutputStream.is_open() && !fileInfo.empty())
+        verifhooks::crashPointS("cache-fileinfo", &mOutputStream);
+#endif
 }
 
 // TODO: report detailed errors?
@@ -312,5 +345,11 @@ void AnalyzerInformation::reopen(const std::string &buildDir, const std::string 
     content.resize(content.find("</analyzerinfo>"));
 
     mOutputStream.open(analyzerInfoFile, std::ios::trunc);
+#ifdef DANMAR_CPPCHECK_VERIF
+    verifhooks::crashPointS("cache-reopen-truncated", &mOutputStream);
+#endif
     mOutputStream << content;
+#ifdef DANMAR_CPPCHECK_VERIF
+    verifhooks::crashPointS("cache-reopen-content", &mOutputStream);
+#endif
 }
